@@ -191,33 +191,32 @@ func c37Create(s *orcStep, res *run.Result) {
 		res.Inc("skipped_create_inside_class_or_table")
 		return
 	}
-	res.Inc("judged_create")
-	trig := s.Call.Variant + ":" + orcTrig(s)
+	orcJudged(s, res, "create")
 	var allowed [][]string
 	if nk.Edge {
 		if nk.Index == nil {
-			orcViol(res, "C37.create-id-not-an-element", "C37.create-id-not-an-element:"+trig, fmt.Sprintf("Create returned %q which names no single connection\n%s", s.NewKey, s.describe()))
+			orcViol(res, "C37.create-id-not-an-element", orcSig(s, "C37", "create-id-not-an-element", ""), fmt.Sprintf("Create returned %q which names no single connection\n%s", s.NewKey, s.describe()))
 			return
 		}
 		if pre.findEdge(nk) >= 0 {
-			orcViol(res, "C37.create-id-existed", "C37.create-id-existed:"+trig, fmt.Sprintf("Create returned %q, a connection that already existed\n%s", s.NewKey, s.describe()))
+			orcViol(res, "C37.create-id-existed", orcSig(s, "C37", "create-id-existed", ""), fmt.Sprintf("Create returned %q, a connection that already existed\n%s", s.NewKey, s.describe()))
 		}
 		if post.findEdge(nk) < 0 {
-			orcViol(res, "C37.create-id-missing", "C37.create-id-missing:"+trig, fmt.Sprintf("Create returned %q but no such connection exists afterwards\n%s", s.NewKey, s.describe()))
+			orcViol(res, "C37.create-id-missing", orcSig(s, "C37", "create-id-missing", ""), fmt.Sprintf("Create returned %q but no such connection exists afterwards\n%s", s.NewKey, s.describe()))
 		}
 		if len(post.Edges) != len(pre.Edges)+1 {
-			orcViol(res, "C37.create-edge-count", "C37.create-edge-count:"+trig, fmt.Sprintf("creating one connection changed the number of connections %d -> %d\n%s", len(pre.Edges), len(post.Edges), s.describe()))
+			orcViol(res, "C37.create-edge-count", orcSig(s, "C37", "create-edge-count", ""), fmt.Sprintf("creating one connection changed the number of connections %d -> %d\n%s", len(pre.Edges), len(post.Edges), s.describe()))
 		}
 		allowed = [][]string{nk.Src, nk.Dst}
 	} else {
 		if pre.findObj(nk.Obj) >= 0 {
-			orcViol(res, "C37.create-id-existed", "C37.create-id-existed:"+trig, fmt.Sprintf("Create returned %q, an object that already existed\n%s", s.NewKey, s.describe()))
+			orcViol(res, "C37.create-id-existed", orcSig(s, "C37", "create-id-existed", ""), fmt.Sprintf("Create returned %q, an object that already existed\n%s", s.NewKey, s.describe()))
 		}
 		if post.findObj(nk.Obj) < 0 {
-			orcViol(res, "C37.create-id-missing", "C37.create-id-missing:"+trig, fmt.Sprintf("Create returned %q but no such object exists afterwards\n%s", s.NewKey, s.describe()))
+			orcViol(res, "C37.create-id-missing", orcSig(s, "C37", "create-id-missing", ""), fmt.Sprintf("Create returned %q but no such object exists afterwards\n%s", s.NewKey, s.describe()))
 		}
 		if len(post.Edges) != len(pre.Edges) {
-			orcViol(res, "C37.create-edge-count", "C37.create-edge-count:"+trig, fmt.Sprintf("creating an object changed the number of connections %d -> %d\n%s", len(pre.Edges), len(post.Edges), s.describe()))
+			orcViol(res, "C37.create-edge-count", orcSig(s, "C37", "create-edge-count", ""), fmt.Sprintf("creating an object changed the number of connections %d -> %d\n%s", len(pre.Edges), len(post.Edges), s.describe()))
 		}
 		allowed = [][]string{nk.Obj}
 	}
@@ -232,12 +231,12 @@ func c37Create(s *orcStep, res *run.Result) {
 			}
 		}
 		if !ok {
-			orcViol(res, "C37.create-extra-object", "C37.create-extra-object:"+trig, fmt.Sprintf("Create(%q) also created object %q, which is not on the path of the returned id %q\n%s", s.Call.Key, post.Objs[j].AbsID, s.NewKey, s.describe()))
+			orcViol(res, "C37.create-extra-object", orcSig(s, "C37", "create-extra-object", ""), fmt.Sprintf("Create(%q) also created object %q, which is not on the path of the returned id %q\n%s", s.Call.Key, post.Objs[j].AbsID, s.NewKey, s.describe()))
 			break
 		}
 	}
 	if diffs, _ := orcUnchanged(pre, post, orcSame{}); len(diffs) > 0 {
-		orcViol(res, "C37.create-changed-existing", "C37.create-changed-existing:"+trig, fmt.Sprintf("Create changed pre-existing elements:\n%s\n%s", orcJoinDiffs(diffs), s.describe()))
+		orcViol(res, "C37.create-changed-existing", orcSig(s, "C37", "create-changed-existing", ""), fmt.Sprintf("Create changed pre-existing elements:\n%s\n%s", orcJoinDiffs(diffs), s.describe()))
 	}
 }
 
@@ -285,7 +284,6 @@ func c37Set(s *orcStep, res *run.Result) {
 		res.Inc("skipped_set_special_shape")
 		return
 	}
-	trig := s.Call.Variant + ":" + orcTrig(s)
 	attr := k.Attr
 	if k.Edge {
 		attr = k.EdgeAttr
@@ -293,10 +291,10 @@ func c37Set(s *orcStep, res *run.Result) {
 			// `a -> b: value` appends a new connection: only side effects are judged
 			res.Inc("judged_set_unindexed_edge")
 			if len(post.Edges) != len(pre.Edges)+1 {
-				orcViol(res, "C37.set-edge-count", "C37.set-edge-count:"+trig, fmt.Sprintf("Set on an unindexed connection key changed the number of connections %d -> %d\n%s", len(pre.Edges), len(post.Edges), s.describe()))
+				orcViol(res, "C37.set-edge-count", orcSig(s, "C37", "set-edge-count", ""), fmt.Sprintf("Set on an unindexed connection key changed the number of connections %d -> %d\n%s", len(pre.Edges), len(post.Edges), s.describe()))
 			}
 			if diffs, _ := orcUnchanged(pre, post, orcSame{}); len(diffs) > 0 {
-				orcViol(res, "C37.set-changed-others", "C37.set-changed-others:"+trig, fmt.Sprintf("Set changed other elements:\n%s\n%s", orcJoinDiffs(diffs), s.describe()))
+				orcViol(res, "C37.set-changed-others", orcSig(s, "C37", "set-changed-others", ""), fmt.Sprintf("Set changed other elements:\n%s\n%s", orcJoinDiffs(diffs), s.describe()))
 			}
 			return
 		}
@@ -320,7 +318,7 @@ func c37Set(s *orcStep, res *run.Result) {
 		preT, postT = pre.findObj(k.Obj), post.findObj(k.Obj)
 	}
 	if postT < 0 {
-		orcViol(res, "C37.set-target-missing", "C37.set-target-missing:"+trig, fmt.Sprintf("after Set the addressed element %q does not exist\n%s", s.Call.Key, s.describe()))
+		orcViol(res, "C37.set-target-missing", orcSig(s, "C37", "set-target-missing", ""), fmt.Sprintf("after Set the addressed element %q does not exist\n%s", s.Call.Key, s.describe()))
 		return
 	}
 	// JSON path of the addressed attribute
@@ -403,14 +401,14 @@ func c37Set(s *orcStep, res *run.Result) {
 			if k.Edge {
 				elem = "connection"
 			}
-			orcViol(res, "C37.set-value", "C37.set-value:"+elem+"."+name+":"+how+":"+orcTrig(s),
+			orcViol(res, "C37.set-value", orcSig(s, "C37", "set-value", elem+"."+name+":"+how),
 				fmt.Sprintf("Set(%q, %q): attribute %s is %q (present=%v) afterwards; before it was %q (present=%v)\n%s", s.Call.Key, want, strings.Join(path, "."), got, ok, was, had, s.describe()))
 		}
 	} else {
 		res.Inc("set_value_not_judged")
 	}
 	// side effects
-	res.Inc("judged_set_side_effects")
+	orcJudged(s, res, "set_side_effects")
 	same := orcSame{}
 	if k.Edge {
 		same.SkipEdge = func(i int) bool { return i == preT }
@@ -471,7 +469,7 @@ func c37Set(s *orcStep, res *run.Result) {
 		diffs = append(diffs, fmt.Sprintf("number of connections changed %d -> %d", len(pre.Edges), len(post.Edges)))
 	}
 	if len(diffs) > 0 {
-		orcViol(res, "C37.set-changed-others", "C37.set-changed-others:"+trig, fmt.Sprintf("Set changed more than the addressed attribute:\n%s\n%s", orcJoinDiffs(diffs), s.describe()))
+		orcViol(res, "C37.set-changed-others", orcSig(s, "C37", "set-changed-others", ""), fmt.Sprintf("Set changed more than the addressed attribute:\n%s\n%s", orcJoinDiffs(diffs), s.describe()))
 	}
 }
 
